@@ -291,9 +291,12 @@ def pyjelly_pairs(ctx, rng):
                 results = None
                 break
             hint = delimited_jelly_hint(data[:3])
-            first = wire.dec_stream(data, delimited)[0]
-            optlen = first["row_offsets"][0][1] - first["row_offsets"][0][0]
-            ctx.observe(f"pyjelly-options-row-field-length:{optlen if optlen < 20 else ('10' if optlen == 10 else '>=20')}")
+            try:
+                first = wire.dec_stream(data, delimited)[0]
+                optlen = first["row_offsets"][0][1] - first["row_offsets"][0][0]
+                ctx.observe(f"pyjelly-options-row-field-length:{optlen if optlen < 20 else ('10' if optlen == 10 else '>=20')}")
+            except Exception:  # noqa: BLE001 - statistics only; output that cannot be read is judged by the parse below
+                ctx.observe("pyjelly-output-unreadable-by-the-independent-codec")
             if hint != delimited:
                 ctx.violation({"clause": "misclassified", "mode": "delimited" if delimited else "non-delimited",
                                "header": data[:3].hex(), "cfg": cfg, "stmts": T.to_json(stmts),
